@@ -164,6 +164,32 @@ theorem in_range_any_state {D : StdDist Int δ} (hU : D.UniformInt) (ty : Ty) (G
   obtain ⟨y, hy, rfl⟩ := hx
   simpa [undecorate_decorate'] using stdDraws_mem hU G n _ g hle y hy
 
+/-- **In range over histories**: for any interleaving of draws, `reset()` and `param(p)` (each `p` with
+`min ≤ max`), every drawn value lies in the interval that had been requested at the moment of the draw. -/
+theorem history_in_range {D : StdDist Int δ} (hU : D.UniformInt) (ty : Ty) (G : Gen γ) :
+    ∀ (ops : List (Op Int)) (b : Basic δ) (g : γ) (q : Int × Int), D.param b.dist = q → q.1 ≤ q.2 → OpsValid ops →
+      AllWithin (runF D ty (basicPseudo G) ops b g).1 (boundsInForce ops q) := by
+  intro ops
+  induction ops with
+  | nil => intro b g q _ _ _; trivial
+  | cons o ops ih =>
+    intro b g q hq hle hv
+    cases o with
+    | draw =>
+      simp only [runF, boundsInForce]
+      refine ⟨?_, ih _ _ q ?_ hle hv⟩
+      · have := hU.draw_mem (basicPseudo G) b.dist g (by rw [hq]; exact hle)
+        rw [hq] at this
+        simpa [Basic.draw, Basic.makeResult, undecorate_decorate'] using this
+      · simp only [Basic.draw]
+        rw [hU.toLawful.param_draw, hq]
+    | reset =>
+      simp only [runF, boundsInForce]
+      exact ih _ g q (by simp only [Basic.reset]; rw [hU.toLawful.param_reset, hq]) hle hv
+    | setParam p =>
+      simp only [runF, boundsInForce]
+      exact ih _ g _ (by simp only [Basic.setParam, Param2.convertFrom]; rw [hU.toLawful.param_setParam]) hv.1 hv.2
+
 /-- **Enum distributions yield enumerators**: `make_uniform_enum<E>()` for an enum whose largest
 enumerator has value `maxValue` only yields `E(x)` with `0 ≤ x ≤ maxValue`. -/
 theorem enum_in_range {D : StdDist Int δ} (hU : D.UniformInt) (G : Gen γ) (maxValue : Nat) (n : Nat) (g : γ) :
@@ -277,6 +303,16 @@ example :
     (Variate.draws modDist (.strong (.strong .base)) (basicPseudo ctrEngine) 4
       (Variate.ctor (Basic.ctor modDist ⟨decorate (.strong (.strong .base)) (-3), decorate (.strong (.strong .base)) 5⟩)) 10).1
       = [.strong (.strong (.base (-2))), .strong (.strong (.base (-1))), .strong (.strong (.base 0)), .strong (.strong (.base 1))] := by
+  decide
+
+/-- a history on a strong typedef: draw from `[0,3]`, `param([10,11])`, draw, `reset()`, draw -/
+example :
+    (runF modDist (.strong .base) (basicPseudo ctrEngine)
+      [.draw, .setParam ⟨.strong (.base 10), .strong (.base 11)⟩, .draw, .reset, .draw]
+      (Basic.ctor modDist ⟨.strong (.base 0), .strong (.base 3)⟩) 6).1
+      = [.strong (.base 2), .strong (.base 11), .strong (.base 10)] ∧
+    boundsInForce [.draw, .setParam ⟨.strong (.base 10), .strong (.base 11)⟩, .draw, .reset, .draw] (0, 3)
+      = [(0, 3), (10, 11), (10, 11)] := by
   decide
 
 /-- containers: `[10, 20, 30]` is drawn by index; the empty container gives nothing -/
